@@ -385,6 +385,8 @@ func injectTable(c *core.Ctx, maxLen int) (rs rows, runs int, undecided string) 
 					var events []string
 					var n, H *absint.Tok
 					var metas []*absint.Tok
+					var content absint.Value
+					var nFieldSets int
 					build := func() (absint.Oracle, []absint.Value, []absint.Value) {
 						events = nil
 						t := newTbl(c)
@@ -423,24 +425,94 @@ func injectTable(c *core.Ctx, maxLen int) (rs rows, runs int, undecided string) 
 						if stack != nil {
 							t.callee[stack] = func(ip *absint.Interp, args []absint.Value) absint.Value { return &absint.Opaque{Why: "text"} }
 						}
-						t.ext["reflect.MakeSlice"] = func(ip *absint.Interp, args []absint.Value) absint.Value {
-							s := absint.NewTok("newslice", "rslice")
-							s.Attr["len"] = args[1]
-							s.Attr["type"] = args[0]
+						// a small model of reflect values: the field is a location, slices are objects with element slots
+						content = nil
+						nFieldSets = 0
+						elemsOf := func(v absint.Value) (*absint.List, bool) {
+							if v == absint.Value(fv) {
+								v = content
+							}
+							if v == nil {
+								return &absint.List{}, true
+							}
+							if s, ok := v.(*absint.Tok); ok && s.Class == "rslice" {
+								return s.Attr["elems"].(*absint.List), true
+							}
+							return nil, false
+						}
+						newSlice := func(elems []absint.Value, typ absint.Value) *absint.Tok {
+							s := absint.NewTok("rslice", "rslice")
+							s.Attr["elems"] = &absint.List{Elems: elems}
+							s.Attr["type"] = typ
 							return s
 						}
+						t.ext["reflect.MakeSlice"] = func(ip *absint.Interp, args []absint.Value) absint.Value {
+							n, ok := args[1].(absint.Int)
+							if !ok {
+								panic(&absint.Undecided{Msg: "MakeSlice with an unknown length"})
+							}
+							var el []absint.Value
+							for i := 0; i < int(n); i++ {
+								el = append(el, absint.Nil{})
+							}
+							return newSlice(el, args[0])
+						}
 						t.ext["(reflect.Value).Set"] = func(ip *absint.Interp, args []absint.Value) absint.Value {
-							events = append(events, "SET "+absint.Show(args[0])+" "+absint.Show(args[1]))
-							if s, ok := args[1].(*absint.Tok); ok && s.Class == "rslice" {
-								events[len(events)-1] += fmt.Sprintf(" len=%s type=%s", absint.Show(s.Attr["len"]), absint.Show(s.Attr["type"]))
+							dst, _ := args[0].(*absint.Tok)
+							switch {
+							case dst == fv:
+								content = args[1]
+								nFieldSets++
+							case dst != nil && dst.Class == "rindex":
+								l := dst.Attr["parent"].(*absint.Tok).Attr["elems"].(*absint.List)
+								l.Elems[int(dst.Attr["i"].(absint.Int))] = args[1]
+							default:
+								events = append(events, "SET-ELSEWHERE "+absint.Show(args[0]))
 							}
 							return nil
 						}
 						t.ext["(reflect.Value).Index"] = func(ip *absint.Interp, args []absint.Value) absint.Value {
-							return absint.NewTok(absint.Show(args[0])+"["+absint.Show(args[1])+"]", "rindex")
+							parent := args[0]
+							if parent == absint.Value(fv) {
+								parent = content
+							}
+							ps, ok := parent.(*absint.Tok)
+							i, okI := args[1].(absint.Int)
+							if !ok || ps.Class != "rslice" || !okI {
+								panic(&absint.GoPanic{Msg: "reflect: Index of a non-slice value"})
+							}
+							if int(i) < 0 || int(i) >= len(ps.Attr["elems"].(*absint.List).Elems) {
+								panic(&absint.GoPanic{Msg: "reflect: slice index out of range"})
+							}
+							r := absint.NewTok(fmt.Sprintf("slot[%d]", i), "rindex")
+							r.Attr["parent"], r.Attr["i"] = ps, i
+							return r
+						}
+						t.ext["reflect.Append"] = func(ip *absint.Interp, args []absint.Value) absint.Value {
+							base, ok := elemsOf(args[0])
+							if !ok {
+								panic(&absint.Undecided{Msg: "reflect.Append to something that is not a modelled slice"})
+							}
+							el := append([]absint.Value(nil), base.Elems...)
+							if more, isL := args[1].(*absint.List); isL {
+								el = append(el, more.Elems...)
+							}
+							return newSlice(el, typ)
+						}
+						t.ext["reflect.AppendSlice"] = func(ip *absint.Interp, args []absint.Value) absint.Value {
+							a, ok1 := elemsOf(args[0])
+							b, ok2 := elemsOf(args[1])
+							if !ok1 || !ok2 {
+								panic(&absint.Undecided{Msg: "reflect.AppendSlice of unmodelled values"})
+							}
+							return newSlice(append(append([]absint.Value(nil), a.Elems...), b.Elems...), typ)
 						}
 						t.ext["(reflect.Value).Len"] = func(ip *absint.Interp, args []absint.Value) absint.Value {
-							panic(&absint.Undecided{Msg: "reflect Len not modelled"})
+							l, ok := elemsOf(args[0])
+							if !ok {
+								panic(&absint.Undecided{Msg: "reflect Len of an unmodelled value"})
+							}
+							return absint.Int(len(l.Elems))
 						}
 						return t, []absint.Value{n, in}, nil
 					}
@@ -459,58 +531,72 @@ func injectTable(c *core.Ctx, maxLen int) (rs rows, runs int, undecided string) 
 						}
 						if ptype != "Component" {
 							rs.hit("wrong-property-type")
-							if !isErr || len(events) != 0 {
+							if !isErr || len(events) != 0 || nFieldSets != 0 {
 								rs.fail("wrong-property-type", w)
 							}
 							return
 						}
 						if len(nonself) == 0 {
 							rs.hit("nothing-to-inject")
-							if isErr != required || len(events) != 0 {
+							if isErr != required || len(events) != 0 || nFieldSets != 0 {
 								rs.fail("nothing-to-inject", w)
 							}
 							return
 						}
-						want := map[string]int{}
 						row := "single"
+						depon := map[string]int{}
+						other := 0
+						for _, e := range events {
+							if strings.HasPrefix(e, "DEPON ") {
+								depon[e]++
+							} else {
+								other++
+							}
+						}
 						if kind == 23 || kind == 17 {
 							row = "slice"
-							want[fmt.Sprintf("SET fieldValue newslice len=%d type=fieldType", len(nonself))] = 1
-							for i, m := range nonself {
-								want[fmt.Sprintf("SET fieldValue[%d] %s.Base.Value", i, m.ID)] = 1
-								want["DEPON "+m.ID+" H"] = 1
-							}
 							rs.hit(row)
-							got := map[string]int{}
-							for _, e := range events {
-								got[e]++
+							okAll := !isErr && other == 0
+							sl, isS := content.(*absint.Tok)
+							if !isS || sl.Class != "rslice" || sl.Attr["type"] != absint.Value(nil) && absint.Show(sl.Attr["type"]) != "fieldType" {
+								okAll = false
+							} else {
+								got := map[string]int{}
+								for _, e := range sl.Attr["elems"].(*absint.List).Elems {
+									got[absint.Show(e)]++
+								}
+								if len(got) != len(nonself) {
+									okAll = false
+								}
+								for _, m := range nonself {
+									if got[m.ID+".Base.Value"] != 1 {
+										okAll = false
+									}
+								}
 							}
-							okAll := !isErr && len(got) == len(want)
-							for k, v := range want {
-								if got[k] != v {
+							if len(depon) != len(nonself) {
+								okAll = false
+							}
+							for _, m := range nonself {
+								if depon["DEPON "+m.ID+" H"] != 1 {
 									okAll = false
 								}
 							}
-							// the slice must be installed before its elements are set
-							if len(events) == 0 || !strings.HasPrefix(events[0], "SET fieldValue newslice") {
-								okAll = false
-							}
 							if !okAll {
-								rs.fail(row, w)
+								rs.fail(row, w+" field="+showContent(content))
 							}
 						} else {
 							rs.hit(row)
 							okOne := false
-							if !isErr && len(events) == 2 {
+							if !isErr && other == 0 && nFieldSets == 1 && len(depon) == 1 {
 								for _, m := range nonself {
-									if (events[0] == "SET fieldValue "+m.ID+".Base.Value" && events[1] == "DEPON "+m.ID+" H") ||
-										(events[1] == "SET fieldValue "+m.ID+".Base.Value" && events[0] == "DEPON "+m.ID+" H") {
+									if absint.Show(content) == m.ID+".Base.Value" && depon["DEPON "+m.ID+" H"] == 1 {
 										okOne = true
 									}
 								}
 							}
 							if !okOne {
-								rs.fail(row, w)
+								rs.fail(row, w+" field="+showContent(content))
 							}
 						}
 						rs.hit("injects-recorded")
@@ -726,4 +812,11 @@ func earlyFactoryTable(c *core.Ctx, l *lifecycleRoles, maxLen int) (rs rows, run
 func isString(t types.Type) bool {
 	b, ok := t.Underlying().(*types.Basic)
 	return ok && b.Info()&types.IsString != 0
+}
+
+func showContent(v absint.Value) string {
+	if s, ok := v.(*absint.Tok); ok && s.Class == "rslice" {
+		return "slice" + absint.Show(s.Attr["elems"])
+	}
+	return absint.Show(v)
 }
